@@ -155,8 +155,9 @@ def oracle_c14(ctx, suite, case, ev, eq):
                 ctx.oracle_fail(suite, case, f"two single-qubit gates on qubit {q} with no barrier on that qubit between them", eq)
                 return
             open_rot.add(q)
-            if abs(float(s.angle)) < 1e-7 and abs(float(s.phase)) < 1e-7:
-                ctx.oracle_fail(suite, case, "an identity gate remains after merging", eq)
+            if abs(float(s.angle)) < 1e-7:
+                # its operator is a multiple of the identity, whatever its phase
+                ctx.oracle_fail(suite, case, "an identity gate (zero-angle rotation) remains after merging", eq)
                 return
         elif is_barrier(s):
             for q in oracles.stmt_qubits(s):
